@@ -254,7 +254,16 @@ impl<T: Decode> Decode for Option<T> {
     fn from_ssz_bytes(bytes: &[u8]) -> Result<Self, DecodeError> {
         let (selector, body) = split_union_bytes(bytes)?;
         match selector.into() {
-            0u8 => Ok(None),
+            0u8 => {
+                if body.is_empty() {
+                    Ok(None)
+                } else {
+                    Err(DecodeError::InvalidByteLength {
+                        len: bytes.len(),
+                        expected: BYTES_PER_UNION_SELECTOR,
+                    })
+                }
+            }
             1u8 => <T as Decode>::from_ssz_bytes(body).map(Option::Some),
             other => Err(DecodeError::UnionSelectorInvalid(other)),
         }
